@@ -421,7 +421,86 @@ fn c01_object_long_containers(i: &Input) -> Outcome {
     }
 }
 
+/// Buffers that are REUSED: the 16 spare bytes at the end of an in-place encryption buffer are documented as ignored, so
+/// whatever they hold (0xff, random bytes, the tag a previous open left behind) the box must be libsodium's.  Inputs:
+/// k, n, m, tail (16 bytes) for secretbox.
+fn c01_secretbox_inplace_dirty_tail(i: &Input) -> Outcome {
+    let (k, n, m, tail) = (i.arr::<32>("k"), i.arr::<24>("n"), i.get("m"), i.arr::<16>("tail"));
+    let want = so::secretbox_easy(m, &n, &k);
+    let what = format!("crypto_secretbox_easy_inplace (spare tail bytes = {})", hex(&tail));
+    let mut data = m.to_vec();
+    data.extend_from_slice(&tail);
+    must_ok(crypto_secretbox_easy_inplace(&mut data, &n, &k), &what)?;
+    eq(&format!("{} output", what), &want, &data)?;
+
+    // open in place, then encrypt again in the same buffer (the old tag / keystream residue is still in the tail)
+    let mut data = want.clone();
+    must_ok(crypto_secretbox_open_easy_inplace(&mut data, &n, &k), "crypto_secretbox_open_easy_inplace")?;
+    eq("crypto_secretbox_open_easy_inplace plaintext", m, &data[..m.len()])?;
+    let what = format!(
+        "crypto_secretbox_easy_inplace on the buffer crypto_secretbox_open_easy_inplace just opened (tail = {})",
+        hex(&data[m.len()..])
+    );
+    must_ok(crypto_secretbox_easy_inplace(&mut data, &n, &k), &what)?;
+    eq(&format!("{} output", what), &want, &data)
+}
+
+/// The same for the public-key forms (ska, skb, n, m, tail): easy_inplace with a dirty tail, open_easy_inplace followed
+/// by easy_inplace on the same buffer, and the detached in-place forms with a dirty mac out-parameter.
+fn c01_box_inplace_dirty_tail(i: &Input) -> Outcome {
+    let b = box_in(i);
+    let tail = i.arr::<16>("tail");
+    let want = so_box_easy(&b)?;
+    let want_mac: [u8; 16] = want[..16].try_into().unwrap();
+
+    let what = format!("crypto_box_easy_inplace (spare tail bytes = {})", hex(&tail));
+    let mut data = b.m.to_vec();
+    data.extend_from_slice(&tail);
+    must_ok(crypto_box_easy_inplace(&mut data, &b.n, &b.pkb, &b.ska), &what)?;
+    eq(&format!("{} output", what), &want, &data)?;
+
+    let mut data = want.clone();
+    must_ok(crypto_box_open_easy_inplace(&mut data, &b.n, &b.pka, &b.skb), "crypto_box_open_easy_inplace")?;
+    eq("crypto_box_open_easy_inplace plaintext", b.m, &data[..b.m.len()])?;
+    let what = format!(
+        "crypto_box_easy_inplace on the buffer crypto_box_open_easy_inplace just opened (tail = {})",
+        hex(&data[b.m.len()..])
+    );
+    must_ok(crypto_box_easy_inplace(&mut data, &b.n, &b.pkb, &b.ska), &what)?;
+    eq(&format!("{} output", what), &want, &data)?;
+
+    // detached in-place forms: the mac out-parameter holds old bytes
+    let mut data = b.m.to_vec();
+    let mut mac = tail;
+    must_ok(
+        crypto_box_detached_inplace(&mut data, &mut mac, &b.n, &b.pkb, &b.ska),
+        "crypto_box_detached_inplace (mac out-parameter not zeroed)",
+    )?;
+    eq("crypto_box_detached_inplace ciphertext (mac out-parameter not zeroed)", &want[16..], &data)?;
+    eq("crypto_box_detached_inplace mac (mac out-parameter not zeroed)", &want_mac, &mac)?;
+    let k = so::box_beforenm(&b.pkb, &b.ska).expect("honest keys");
+    let mut data = b.m.to_vec();
+    let mut mac = tail;
+    crypto_box_detached_afternm_inplace(&mut data, &mut mac, &b.n, &k);
+    eq("crypto_box_detached_afternm_inplace ciphertext (mac out-parameter not zeroed)", &want[16..], &data)?;
+    eq("crypto_box_detached_afternm_inplace mac (mac out-parameter not zeroed)", &want_mac, &mac)
+}
+
 pub const C01: Registry = &[
+    // reused buffers: spare tail of the in-place forms not zero
+    ("secretbox_inplace_dirty_tail", c01_secretbox_inplace_dirty_tail),
+    ("box_inplace_dirty_tail", c01_box_inplace_dirty_tail),
+    // same bodies as below on messages constructed so that the genuine Poly1305 tag has a chosen VALUE (0^16, ff^16, 1,
+    // ..): every open entry point must accept the genuine box whatever its tag is
+    ("secretbox_easy_chosen_tag", c01_secretbox_easy),
+    ("secretbox_detached_chosen_tag", c01_secretbox_detached),
+    ("secretbox_inplace_chosen_tag", c01_secretbox_inplace),
+    ("secretbox_object_chosen_tag", c01_secretbox_object),
+    ("box_easy_chosen_tag", c01_box_easy),
+    ("box_detached_chosen_tag", c01_box_detached),
+    ("box_afternm_chosen_tag", c01_box_afternm),
+    ("box_inplace_chosen_tag", c01_box_inplace),
+    ("box_object_chosen_tag", c01_box_object),
     ("object_long_containers", c01_object_long_containers),
     ("secretbox_easy", c01_secretbox_easy),
     ("secretbox_detached", c01_secretbox_detached),
@@ -536,6 +615,93 @@ pub fn c01(ctx: &mut Ctx) -> Search {
                 "box_object_poly1305_edge",
             ] {
                 ctx.run(case, bx.clone())?;
+            }
+        }
+    }
+    // reused in-place buffers: spare tail 0xff / random / one non-zero byte / a previous tag
+    let dlens: Vec<usize> = if t { vec![0, 1, 15, 16, 17, 31, 32, 33, 64, 100, 1000, 4097] } else { vec![0, 1, 16, 17, 64, 1000] };
+    for len in dlens {
+        let m = ctx.rng.bytes(len);
+        let (k, n) = (ctx.rng.arr::<32>(), ctx.rng.arr::<24>());
+        let (ska, skb) = (ctx.rng.arr::<32>(), ctx.rng.arr::<32>());
+        let mut first = [0u8; 16];
+        first[0] = 1;
+        let mut last = [0u8; 16];
+        last[15] = 0x80;
+        let old_tag: [u8; 16] = so::secretbox_easy(&ctx.rng.bytes(len), &n, &k)[..16].try_into().unwrap();
+        for tail in [[0xffu8; 16], ctx.rng.arr::<16>(), first, last, old_tag, [0u8; 16]] {
+            ctx.run("secretbox_inplace_dirty_tail", Input::new().b("k", &k).b("n", &n).b("m", &m).b("tail", &tail))?;
+            ctx.run(
+                "box_inplace_dirty_tail",
+                Input::new().b("ska", &ska).b("skb", &skb).b("n", &n).b("m", &m).b("tail", &tail),
+            )?;
+        }
+    }
+    // constructed ciphertexts: the genuine tag is a chosen value (random inputs: 2^-128 each)
+    {
+        let mut one = [0u8; 16];
+        one[0] = 1;
+        let mut top = [0u8; 16];
+        top[15] = 0x80;
+        let mut tags: Vec<[u8; 16]> = vec![[0u8; 16], [0xffu8; 16], one, top];
+        if t {
+            let mut lo = [0u8; 16];
+            lo[..8].fill(0xff);
+            let mut hi = [0u8; 16];
+            hi[8..].fill(0xff);
+            tags.extend_from_slice(&[lo, hi, [0x01u8; 16], [0x80u8; 16]]);
+        }
+        let shapes: &[(usize, usize)] = if t { &[(0, 16), (1, 16), (3, 16), (6, 16), (1, 15), (64, 16)] } else { &[(0, 16), (1, 16), (3, 16)] };
+        for tag in &tags {
+            for (nprefix, last_len) in shapes {
+                let blen = 16 * nprefix + last_len;
+                // secretbox: one-time key = head of the XSalsa20 stream under (k, n); a few nonces until the solved
+                // block fits 128 bits
+                for _ in 0..40 {
+                    let (k, n) = (ctx.rng.arr::<32>(), ctx.rng.arr::<24>());
+                    let ks = so::stream_xsalsa20(32 + blen, &n, &k);
+                    let polykey: [u8; 32] = ks[..32].try_into().unwrap();
+                    if let Some(c) = polymath::message_with_tag(&mut ctx.rng, &polykey, tag, *nprefix, *last_len) {
+                        let m: Vec<u8> = c.iter().zip(&ks[32..]).map(|(a, b)| a ^ b).collect();
+                        if so::secretbox_easy(&m, &n, &k)[..16] != tag[..] {
+                            panic!("{} constructed secretbox does not carry the chosen tag", HARNESS);
+                        }
+                        let sb = Input::new().b("k", &k).b("n", &n).b("m", &m);
+                        for case in [
+                            "secretbox_easy_chosen_tag",
+                            "secretbox_detached_chosen_tag",
+                            "secretbox_inplace_chosen_tag",
+                            "secretbox_object_chosen_tag",
+                        ] {
+                            ctx.run(case, sb.clone())?;
+                        }
+                        break;
+                    }
+                }
+                // box: the same under the precomputed shared key
+                for _ in 0..40 {
+                    let (ska, skb, n) = (ctx.rng.arr::<32>(), ctx.rng.arr::<32>(), ctx.rng.arr::<24>());
+                    let shared = match so::box_beforenm(&so::scalarmult_base(&skb), &ska) {
+                        Some(s) => s,
+                        None => continue,
+                    };
+                    let ks = so::stream_xsalsa20(32 + blen, &n, &shared);
+                    let polykey: [u8; 32] = ks[..32].try_into().unwrap();
+                    if let Some(c) = polymath::message_with_tag(&mut ctx.rng, &polykey, tag, *nprefix, *last_len) {
+                        let m: Vec<u8> = c.iter().zip(&ks[32..]).map(|(a, b)| a ^ b).collect();
+                        let bx = Input::new().b("ska", &ska).b("skb", &skb).b("n", &n).b("m", &m);
+                        for case in [
+                            "box_easy_chosen_tag",
+                            "box_detached_chosen_tag",
+                            "box_afternm_chosen_tag",
+                            "box_inplace_chosen_tag",
+                            "box_object_chosen_tag",
+                        ] {
+                            ctx.run(case, bx.clone())?;
+                        }
+                        break;
+                    }
+                }
             }
         }
     }
@@ -1134,7 +1300,151 @@ fn c17_stream(i: &Input) -> Outcome {
     Ok(())
 }
 
+/// Renderings of a byte string a diagnostic message could contain.
+fn renderings(b: &[u8]) -> Vec<String> {
+    let lower = hex(b);
+    vec![
+        lower.to_uppercase(),
+        lower,
+        format!("{:02x?}", b),
+        format!("{:x?}", b),
+        format!("{:02X?}", b),
+        format!("{:?}", b),
+        b.iter().map(|x| format!("{:02x}", x)).collect::<Vec<_>>().join(" "),
+        b.iter().map(|x| format!("{:02x}", x)).collect::<Vec<_>>().join(":"),
+    ]
+}
+
+/// The text of the Error of a failed open (Display and Debug) is shown to users / written to logs: it must not depend
+/// on the rejected ciphertext (same text for two rejected ciphertexts of equal length) and must not contain the tag that
+/// WOULD authenticate the rejected ciphertext (that is a forgery oracle).  `texts`: (entry point, text for c, text for
+/// c_other); `tags`: the expected tags of c and c_other, computed with libsodium.
+fn error_text_clean(texts: &[(String, String, String)], tags: &[[u8; 16]]) -> Outcome {
+    for (what, a, b) in texts {
+        for tag in tags {
+            for r in renderings(tag) {
+                if a.contains(&r) || b.contains(&r) {
+                    return fail(
+                        "error text without key-dependent data",
+                        a.clone(),
+                        format!(
+                            "{}: the Error text of the failed open contains the Poly1305 tag {} that authenticates the rejected ciphertext (computed with libsodium: crypto_onetimeauth under the XSalsa20 one-time key)",
+                            what,
+                            hex(tag)
+                        ),
+                    );
+                }
+            }
+        }
+        if a != b {
+            return fail(
+                a.clone(),
+                b.clone(),
+                format!("{}: the Error text of a failed open depends on the rejected ciphertext (two rejected ciphertexts of equal length)", what),
+            );
+        }
+    }
+    Ok(())
+}
+
+fn err_texts<T>(r: Result<T, dryoc::Error>, what: &str) -> Result<(String, String), Fail> {
+    match r {
+        Ok(_) => fail("Err", "Ok", format!("{} accepted input that must be rejected", what)),
+        Err(e) => Ok((format!("{}", e), format!("{:?}", e))),
+    }
+}
+
+/// Tag libsodium computes for the body of `c` (mac || body) under the one-time key of (n, k).
+fn expected_tag(c: &[u8], n: &[u8; 24], k: &[u8; 32]) -> [u8; 16] {
+    let ks = so::stream_xsalsa20(32, n, k);
+    let polykey: [u8; 32] = ks[..32].try_into().unwrap();
+    so::onetimeauth(&c[16.min(c.len())..], &polykey)
+}
+
+/// k, n, c, c_other: two rejected ciphertexts of equal length.
+fn c17_secretbox_error_text(i: &Input) -> Outcome {
+    use dryoc::dryocsecretbox::{Key, Nonce, VecBox};
+    let (k, n, c, c_other) = (i.arr::<32>("k"), i.arr::<24>("n"), i.get("c"), i.get("c_other"));
+    if c.len() != c_other.len() || c.len() < 16 {
+        panic!("{} C17 error-text case needs two ciphertexts of equal length >= 16", HARNESS);
+    }
+    if so::secretbox_open_easy(c, &n, &k).is_some() || so::secretbox_open_easy(c_other, &n, &k).is_some() {
+        panic!("{} C17 case needs ciphertexts that libsodium rejects", HARNESS);
+    }
+    let tags = [expected_tag(c, &n, &k), expected_tag(c_other, &n, &k)];
+    let mut per: Vec<Vec<(String, String)>> = Vec::new();
+    for cc in [c, c_other] {
+        let mut v = Vec::new();
+        let mlen = cc.len() - 16;
+        let mut out = vec![FILL; mlen];
+        v.push(err_texts(crypto_secretbox_open_easy(&mut out, cc, &n, &k), "crypto_secretbox_open_easy")?);
+        let (mac, body) = split_mac(cc).unwrap();
+        let mut out = vec![FILL; mlen];
+        v.push(err_texts(crypto_secretbox_open_detached(&mut out, &mac, body, &n, &k), "crypto_secretbox_open_detached")?);
+        let mut data = cc.to_vec();
+        v.push(err_texts(crypto_secretbox_open_easy_inplace(&mut data, &n, &k), "crypto_secretbox_open_easy_inplace")?);
+        let b = must_ok(VecBox::from_bytes(cc), "DryocSecretBox::from_bytes")?;
+        v.push(err_texts(b.decrypt_to_vec(&Nonce::from(n), &Key::from(k)), "DryocSecretBox::decrypt_to_vec")?);
+        per.push(v);
+    }
+    let names = ["crypto_secretbox_open_easy", "crypto_secretbox_open_detached", "crypto_secretbox_open_easy_inplace", "DryocSecretBox::decrypt_to_vec"];
+    let mut texts = Vec::new();
+    for (j, name) in names.iter().enumerate() {
+        texts.push((format!("{} (Display)", name), per[0][j].0.clone(), per[1][j].0.clone()));
+        texts.push((format!("{} (Debug)", name), per[0][j].1.clone(), per[1][j].1.clone()));
+    }
+    error_text_clean(&texts, &tags)
+}
+
+/// pk (sender), sk (recipient), n, c, c_other: the same for the public-key forms.
+fn c17_box_error_text(i: &Input) -> Outcome {
+    use dryoc::dryocbox::{Nonce, PublicKey, SecretKey, VecBox};
+    let (pk, sk, n, c, c_other) = (i.arr::<32>("pk"), i.arr::<32>("sk"), i.arr::<24>("n"), i.get("c"), i.get("c_other"));
+    if c.len() != c_other.len() || c.len() < 16 {
+        panic!("{} C17 error-text case needs two ciphertexts of equal length >= 16", HARNESS);
+    }
+    if so::box_open_easy(c, &n, &pk, &sk).is_some() || so::box_open_easy(c_other, &n, &pk, &sk).is_some() {
+        panic!("{} C17 case needs ciphertexts that libsodium rejects", HARNESS);
+    }
+    let shared = match so::box_beforenm(&pk, &sk) {
+        Some(s) => s,
+        None => panic!("{} C17 error-text case needs an honest sender key", HARNESS),
+    };
+    let tags = [expected_tag(c, &n, &shared), expected_tag(c_other, &n, &shared)];
+    let mut per: Vec<Vec<(String, String)>> = Vec::new();
+    for cc in [c, c_other] {
+        let mut v = Vec::new();
+        let mlen = cc.len() - 16;
+        let mut out = vec![FILL; mlen];
+        v.push(err_texts(crypto_box_open_easy(&mut out, cc, &n, &pk, &sk), "crypto_box_open_easy")?);
+        let mut data = cc.to_vec();
+        v.push(err_texts(crypto_box_open_easy_inplace(&mut data, &n, &pk, &sk), "crypto_box_open_easy_inplace")?);
+        let (mac, body) = split_mac(cc).unwrap();
+        let mut out = vec![FILL; mlen];
+        v.push(err_texts(crypto_box_open_detached(&mut out, &mac, body, &n, &pk, &sk), "crypto_box_open_detached")?);
+        let mut out = vec![FILL; mlen];
+        v.push(err_texts(crypto_box_open_detached_afternm(&mut out, &mac, body, &n, &shared), "crypto_box_open_detached_afternm")?);
+        let b = must_ok(VecBox::from_bytes(cc), "DryocBox::from_bytes")?;
+        v.push(err_texts(
+            b.decrypt_to_vec(&Nonce::from(n), &PublicKey::from(pk), &SecretKey::from(sk)),
+            "DryocBox::decrypt_to_vec",
+        )?);
+        per.push(v);
+    }
+    let names = ["crypto_box_open_easy", "crypto_box_open_easy_inplace", "crypto_box_open_detached", "crypto_box_open_detached_afternm", "DryocBox::decrypt_to_vec"];
+    let mut texts = Vec::new();
+    for (j, name) in names.iter().enumerate() {
+        texts.push((format!("{} (Display)", name), per[0][j].0.clone(), per[1][j].0.clone()));
+        texts.push((format!("{} (Debug)", name), per[0][j].1.clone(), per[1][j].1.clone()));
+    }
+    error_text_clean(&texts, &tags)
+}
+
 pub const C17: Registry = &[
+    // the text of the returned Error: independent of the rejected ciphertext, without the tag that would authenticate it
+    // (dryoc is built with debug assertions in the witness binary, as in every dev / test build of the crate)
+    ("secretbox_failed_open_error_text", c17_secretbox_error_text),
+    ("box_failed_open_error_text", c17_box_error_text),
     ("secretbox_failed_open", c17_secretbox),
     ("box_failed_open", c17_box),
     ("seal_failed_open", c17_seal),
@@ -1210,6 +1520,38 @@ pub fn c17(ctx: &mut Ctx) -> Search {
                 ctx.run(
                     "box_failed_open_larger_buffer",
                     Input::new().b("pk", &pka).b("sk", &sk2).b("n", &n).b("c", &c).u("extra", *e),
+                )?;
+            }
+        }
+
+        // error text: a rejected ciphertext vs its bit-flipped variant (tag bit, body bit), vs an unrelated rejected
+        // ciphertext of the same length
+        {
+            let cs = so::secretbox_easy(&m, &n, &k);
+            let cb = so::box_easy(&m, &n, &pkb, &ska).expect("honest keys");
+            let rnd = ctx.rng.bytes(cs.len());
+            let mut variants: Vec<(Vec<u8>, Vec<u8>, Vec<u8>, Vec<u8>)> = Vec::new();
+            for (pa, pb) in [(0usize, 15usize), (16, cs.len() - 1), (3, 16)] {
+                let flip = |c: &[u8], p: usize| {
+                    let mut v = c.to_vec();
+                    v[p] ^= 1 << (p % 8);
+                    v
+                };
+                // second member: the first one with one more bit changed (another bit if the positions coincide)
+                let flip2 = |c: &[u8], p: usize| {
+                    let mut v = c.to_vec();
+                    v[p] ^= 0x80 >> (p % 8);
+                    v
+                };
+                let pb = pb.min(cs.len() - 1);
+                variants.push((flip(&cs, pa), flip2(&flip(&cs, pa), pb), flip(&cb, pa), flip2(&flip(&cb, pa), pb)));
+            }
+            variants.push((variants[0].0.clone(), rnd.clone(), variants[0].2.clone(), rnd));
+            for (s1, s2, b1, b2) in variants {
+                ctx.run("secretbox_failed_open_error_text", Input::new().b("k", &k).b("n", &n).b("c", &s1).b("c_other", &s2))?;
+                ctx.run(
+                    "box_failed_open_error_text",
+                    Input::new().b("pk", &pka).b("sk", &skb).b("n", &n).b("c", &b1).b("c_other", &b2),
                 )?;
             }
         }
